@@ -55,7 +55,11 @@ fn run_replay(job: &Value) {
         let bv: Value = match serde_json::from_str(&line) { Ok(x) => x, Err(_) => continue };
         out.heartbeat(i);
         out.stats.items += 1;
-        if bv.get("chars").is_some() { replay_string(&mut out, &e, &bv, &phs, i); continue; }
+        if bv.get("chars").is_some() {
+            let (text, outs) = replay_string(&mut out, &e, &bv, &phs, i);
+            if extras.iter().any(|x| x == "spellings") { meta::whitespace_only(&mut out, &e, &text, &outs, &mut rng, thorough); }
+            continue;
+        }
         let b = parse_beh(&bv);
         if !b.kinds.iter().all(|k| k == "bad" || v.has_kind(&e, k)) { continue; }
         let used = replay_base(&mut out, &v, &e, &b, &pols, &phs, min_ops);
